@@ -5,6 +5,11 @@ pub mod c01;
 pub mod c02;
 pub mod c03;
 pub mod c04;
+pub mod alg;
+pub mod c07;
+pub mod c08;
+pub mod c09;
+pub mod c10;
 pub mod c05;
 pub mod c12;
 pub mod c17;
@@ -26,6 +31,10 @@ pub fn registry() -> Vec<PropDef> {
         PropDef { id: c16::ID, run: c16::run, replay: c16::replay },
         PropDef { id: c18::ID, run: c18::run, replay: c18::replay },
         PropDef { id: c05::ID, run: c05::run, replay: c05::replay },
+        PropDef { id: c07::ID, run: c07::run, replay: c07::replay },
+        PropDef { id: c08::ID, run: c08::run, replay: c08::replay },
+        PropDef { id: c09::ID, run: c09::run, replay: c09::replay },
+        PropDef { id: c10::ID, run: c10::run, replay: c10::replay },
         PropDef { id: c12::ID, run: c12::run, replay: c12::replay },
         PropDef { id: c17::ID, run: c17::run, replay: c17::replay },
     ]
